@@ -205,12 +205,26 @@ macro_rules! impl_rank_small_sel {
                 let mut past_ones: usize = 0;
                 let mut next_quantum: usize = 0;
 
-                for superblock in small_counters
-                    .as_ref()
-                    .chunks(Self::SUPERBLOCK_BIT_SIZE / usize::BITS as usize)
+                // The backend might contain arbitrary bits beyond the length
+                // of the vector (in the last word, and in further words): they
+                // are not ones of the vector and must be ignored
+                let words_per_superblock = Self::SUPERBLOCK_BIT_SIZE / usize::BITS as usize;
+                let num_bits = small_counters.len();
+                let num_words = num_bits.div_ceil(usize::BITS as usize);
+                let residual = num_bits % usize::BITS as usize;
+
+                for (s, superblock) in small_counters.as_ref()[..num_words]
+                    .chunks(words_per_superblock)
+                    .enumerate()
                 {
                     let mut first = true;
                     for (i, word) in superblock.iter().copied().enumerate() {
+                        let word = if s * words_per_superblock + i + 1 == num_words && residual != 0
+                        {
+                            word & ((1 << residual) - 1)
+                        } else {
+                            word
+                        };
                         let ones_in_word = word.count_ones() as usize;
 
                         while past_ones + ones_in_word > next_quantum {
